@@ -62,7 +62,7 @@ Lemma lcp_down_resets : forall v i m,
   pend (ms m') = None /\ pty (ms m') = PtNone /\ ph (ms m') = PEstablish /\
   quietb (ipcp (ms m')) = true /\ quietb (ip6cp (ms m')) = true.
 Proof.
-  intros [rep rfc] i [s n f q o] Hv. cbn in Hv. subst rep.
+  intros [rep rfc] i [s n f q o f6] Hv. cbn in Hv. subst rep.
   destruct s as [lv g p lf [cf cr] [vf vr'] ac rt pe pt io vo sa c4 a4 k4 al].
   unfold on_lcp_down, ncp_apply, fsm_down, quietb. cbn.
   destruct cf; cbn; destruct vf; cbn; auto.
